@@ -56,14 +56,24 @@ ASSUMPTIONS = [
     "the back-off sleep is not clipped to the remaining lifetime by the code (recorded finding): theorems bound the overrun by one back-off",
 ]
 LEVEL = {
-    "text": "Lean 4 theorems over an executable model of _get_qnames_to_try, _Resolution.{next_request,next_nameserver,query_result}, "
-            "_compute_timeout, the resolve loop on an integer-millisecond clock, resolve_chaining and the cache as a timed map: "
-            "termination within a computed number of iterations for every script, classification of the result, NXDOMAIN only if every "
-            "candidate has NXDOMAIN evidence, a broken server is never re-asked for the same candidate, one TCP retry on the same server "
-            "after UDP truncation, search/ndots candidate order, bounded CNAME chain with minimum TTL, exact cache keys. Tied to the code "
-            "by scripted-nameserver correspondence on a virtual clock (sync and asyncio) and a regenerated back-off table.",
-    "note": "sync = async is tie-only. Trusted: Lean kernel, statements in lean/Props/C16.lean, harness/props/C16.py + harness/vclock.py, extract_C16.py.",
-    "technique": "Lean 4 proof (state-machine invariants, potential-function termination) + model-vs-implementation correspondence on scripted fault sequences",
+    "text": "Lean 4 theorems (lean/Props/C16.lean, 23 statements, no sorry) over an executable model of _get_qnames_to_try, "
+            "_Resolution.{next_request,next_nameserver,query_result}, _compute_timeout, the Resolver.resolve loop on an "
+            "integer-millisecond clock driven by an arbitrary finite script of per-query outcomes with durations, "
+            "QueryMessage.resolve_chaining and the cache as a timed map: the loop ends within (2n+2)*candidates + "
+            "2n*ceil(lifetime/first back-off) + 1 iterations for every script (potential function); the clock at the end is "
+            "within one back-off of start+lifetime as shipped and within the lifetime with the sleep clipped; the result is "
+            "classified by the last step and no earlier query had an acceptable outcome; NXDOMAIN only if every candidate has "
+            "recorded NXDOMAIN evidence; over distinct servers a server that proved broken is never re-asked for the same "
+            "candidate and a truncated UDP reply is followed at once by one TCP query to the same server (trace monitor "
+            "accepted by every run); search/ndots candidate order; bounded CNAME chain with exact minimum TTL and negative TTL "
+            "from the closest SOA; the cache changes only under (candidate,type,class)/(candidate,ANY,class). Tied to the code by "
+            "scripted-nameserver correspondence on a virtual clock (sync and asyncio) and a back-off table observed on a real "
+            "_Resolution object on every run.",
+    "note": "sync = async is tie-only (partial). The strict reading of 'terminates within its lifetime' fails on the unchanged tree "
+            "(back-off sleep not clipped: recorded finding, counter-example proved by decide, bounded overrun proved). Trusted: Lean "
+            "kernel, statements in lean/Props/C16.lean, harness/props/C16.py + harness/vclock.py, harness/extract_C16.py.",
+    "technique": "Lean 4 proof (state-machine invariants, potential-function termination, trace monitor) + model-vs-implementation "
+                 "correspondence on scripted fault sequences",
     "design_ref": "DESIGN.md §7 C16",
 }
 
@@ -1103,7 +1113,7 @@ def case_key(c):
 
 def generate(ctx: Ctx, scale: float, rng):
     n = lambda q: max(1, int(q * scale))
-    for _ in range(n(4000)):
+    for _ in range(n(6000)):
         c, gen = gen_run(ctx, rng)
         nt = eval_case(ctx, c, gen)
         ctx.case(("run", case_key(c)), nontrivial=nt, sample=c if len(c["script"]) < 8 else None)
